@@ -61,6 +61,12 @@ def rand_doc(rng):
         names = list(doc["packages"]) + list(doc.get("packages.conda", {}))
         if names:
             doc[rng.choice(["removed", "removed", "removed", "revoked", "yanked", "info"])] = rng.choice([rng.sample(names, rng.randint(1, len(names))), names[:1], {n: True for n in names[:2]}, names[0]])
+    if rng.random() < 0.35:
+        # top-level members whose *names* resemble the two artifact sections (other package formats, backups, patched / unpatched copies as real indexes carry
+        # them), holding records under the names of real artifacts with other metadata: only "packages" and "packages.conda" list artifacts to sign
+        names = list(doc["packages"]) + list(doc.get("packages.conda", {})) or ["ghost-1.0-0.tar.bz2"]
+        for fld in rng.sample(["packages.whl", "packages.unpatched", "packages.conda.bak", "packages_old", "Packages", "packages.", "xpackages", "packages.conda2"], 2):
+            doc[fld] = {rng.choice(names): {"name": "shadow", "size": rng.randrange(99)}, "only-here-%d.whl" % rng.randrange(9): {"name": "w"}}
     items = list(doc.items())
     rng.shuffle(items)
     return dict(items)
